@@ -11,6 +11,12 @@ func vfPt(name string) XY {
 	return XY{vfLattice(name+".x", vfK), vfLattice(name+".y", vfK)}
 }
 
+// vfPtO: a lattice point for the overlay harnesses, |c| <= 2^9 (the node set
+// computes bucket indices c*2^33+-1, which must stay exactly representable).
+func vfPtO(name string) XY {
+	return XY{vfLattice(name+".x", 9), vfLattice(name+".y", 9)}
+}
+
 func vfCross(o, a, b XY) float64 {
 	return (a.X-o.X)*(b.Y-o.Y) - (a.Y-o.Y)*(b.X-o.X)
 }
